@@ -71,6 +71,7 @@ void random_cfg(Rng &rng, Cfg &cfg, bool wellformed);
 void load_captures(std::vector<std::pair<std::string, std::vector<std::pair<int, Bytes>>>> &out);
 Script random_script(Rng &rng, const GenFeatures &f, int n_exchanges, int id_base);
 void mutate_stream(Rng &rng, Bytes &s, int n_mut);
+HeaderSpec soup_header(Rng &r, bool response);   // hostile value for a field the library parses further (no ground truth)
 // content codings used by the actors only (never by an oracle): zlib deflate with the given window bits
 // (31 gzip, -15 raw RFC 1951, 15 zlib RFC 1950) and liblzma's LZMA-alone encoder
 Bytes z_encode(const Bytes &in, int window_bits, int level, int gz_header_fields);
